@@ -8,7 +8,7 @@
 (* multiply/divide exactly without forming the product).                                           *)
 (*                                                                                                *)
 (* Modelled configuration (what the Go harness sets up with real native calls): a VBFT genesis     *)
-(* with K = 7 peers g1..g7 owned by one address og, network id 3 (every height switch of           *)
+(* with K = 7 peers g1..g7 (owned by og unless the configuration gives a genesis peer its own owner), network id 3 (every height switch of           *)
 (* common/config is 0, so registerCandidate yields CandidateStatus directly and                    *)
 (* approve/reject/unRegister are unreachable), view > NEW_VERSION_VIEW (executeCommitDpos2 /        *)
 (* executeSplit2), block time = genesis time (no ONG unbinding: the governance income is the Fee    *)
@@ -20,7 +20,7 @@
 EXTENDS Integers, Sequences, FiniteSets, TLC
 
 CONSTANTS
-    GenPeers, CandPeers,        \* peer names; genesis peers are owned by "og"
+    GenPeers, CandPeers,        \* peer names
     Addrs,                      \* account names
     OwnerOf,                    \* [Peers -> Addrs]
     PkRank,                     \* [Peers -> Nat]: order of the hex public keys (tie-break of the stake sort)
@@ -112,7 +112,7 @@ Init ==
     /\ pool = [p \in Peers |-> IF p \in GenPeers THEN [st |-> ConsSt, init |-> GenesisPos[p], total |-> 0] ELSE NoPeer]
     /\ prev = pool
     /\ au = [p \in Peers |-> [a \in Addrs |-> ZeroBk]]
-    /\ stake = [a \in Addrs |-> IF a = "og" THEN SumSet(GenPeers, LAMBDA p : GenesisPos[p]) ELSE 0]
+    /\ stake = [a \in Addrs |-> SumSet({q \in GenPeers : OwnerOf[q] = a}, LAMBDA p : GenesisPos[p])]
     /\ pen = [p \in Peers |-> 0]
     /\ ont = [a \in Addrs \cup {"gov"} |-> IF a = "gov" THEN SumSet(GenPeers, LAMBDA p : GenesisPos[p]) ELSE Fund[a]]
     /\ ong = [a \in Addrs \cup {"gov", "dapp"} |-> 0]
